@@ -492,11 +492,11 @@ func (c *fnCtx) unknown(n ast.Node) *Node { return &Node{Op: "Unknown", Src: c.s
 
 func (c *fnCtx) block(stmts []ast.Stmt) *Node {
 	var out []*Node
-	ng, nb := len(c.guards), c.knownNil
+	ng, nb, ib := len(c.guards), c.knownNil, c.inBlock
 	for _, s := range stmts {
 		out = append(out, c.stmt(s))
 	}
-	c.guards, c.knownNil = c.guards[:ng], nb // facts established by an early return end with the block
+	c.guards, c.knownNil, c.inBlock = c.guards[:ng], nb, ib // facts established by an early return end with the block
 	return seq(out)
 }
 
@@ -986,8 +986,14 @@ func (c *fnCtx) ifStmt(x *ast.IfStmt, f facts) *Node {
 				if op == token.EQL {
 					a, b = b, a // a: the variable is non-nil
 				}
-				if terminates(a) {
-					c.setNil(vid) // after the statement (until the end of the enclosing block)
+				// after the statement, until the end of the enclosing block: what an early return leaves
+				if terminates(a) && !terminates(b) {
+					c.setNil(vid)
+				} else if terminates(b) && !terminates(a) {
+					c.clearNil(vid)
+					if kind == "entry" {
+						c.inBlock = true
+					}
 				}
 				if kind == "entry" {
 					return seq(append(pre, &Node{Op: "IfBlocked", Err: vid, A: a, B: b}))
@@ -1017,6 +1023,11 @@ func (c *fnCtx) ifStmt(x *ast.IfStmt, f facts) *Node {
 					pop()
 				}
 				a, b = b, a
+			}
+			if terminates(b) && !terminates(a) {
+				// `if options.f == nil { ...; return }`: the field is non-nil from here to the
+				// end of the enclosing block
+				c.guards = append(c.guards, p)
 			}
 			if a.quiet() && b.quiet() {
 				return seq(append(pre, other()))
